@@ -361,7 +361,17 @@ RecvData(n, id, via) ==
          ELSE \* unknown index, wrong key, or replayed counter: no effect (a recv_error may be sent for an unknown index)
               /\ tunout' = 0 /\ NoEmit /\ UNCHANGED <<msgs, tuns, hosts>>
 
+\* The timer wheel fires every entry that is due before time moves on: when a try interval ends, no node has a pending
+\* handshake whose timer entry is still waiting although it was due ("retransmitted ... and abandoned after the configured
+\* number of attempts": a pending handshake never falls out of the timer).  Entries for addresses without a pending
+\* handshake fire invisibly (handleOutbound finds nothing) and are not constrained.
+\* (an entry that is due in interval c fires in one of the intervals c .. c+2: the wheel rounds up, and once more for entries
+\* added before its first advance; measured on the recorded runs, the bound itself is C33's subject)
+\* The handshake's own schedule (due) is used: older entries for the same address may already have fired unseen while
+\* nothing was pending.
+NoOverdue == \A n \in Nodes : \A a \in DOMAIN pend[n] : pend[n][a].ready => pend[n][a].due + 2 >= clock
 Tick == /\ clock < MaxClock
+        /\ NoOverdue
         /\ clock' = clock + 1
         /\ NoEmit /\ tunout' = 0
         /\ UNCHANGED <<msgs, pend, tuns, hosts, sends, timers, early, bad>>
